@@ -23,12 +23,17 @@ import numpy as np
 from runner import Infra
 
 ID = "C06"
-LEAN_MODULES = ["PyYetiVerif.Props.C06", "PyYetiVerif.Audit.C06"]
+LEAN_MODULES = ["PyYetiVerif.Props.C06", "PyYetiVerif.Props.C06b", "PyYetiVerif.Props.C06c", "PyYetiVerif.Audit.C06"]
 AUDIT_FILE = "PyYetiVerif/Audit/C06.lean"
 THEOREMS = ["PyYetiVerif.C06." + n for n in (
     "cgmass_recovers cgmass_recovers_general rbmove_comp rbmove_rbgeom reorder_pv_perm reorder_perm "
     "reorder_pencil uset_rank_correct convert_inverse convert_congruence convert_pencil "
-    "stiffness_rb_eq_geometry grounding_iff effmass_total cbtf_satisfies_eom"
+    "stiffness_rb_eq_geometry grounding_iff effmass_total cbtf_satisfies_eom "
+    # extension round: _solve_eig (Guyan reduction, null columns), _cbcoordchk trimming, rbdispchk, mk_net_drms,
+    # rbmultchk, cbtf at 0 Hz
+    "guyan_preserves_eigenpairs guyanK_eq_blocks psiResid_eq_blocks guyanExpand_rows null_trim_sound nullExpand_rows "
+    "coordchk_trim_sound trimRef_spec rbdispchk_recovers_coords rbdispchk_recovers_grid net_force_is_resultant "
+    "net_drm_is_resultant net_force_is_resultant_local rbmult_eq_mul cbtf_static_limit cbtfStaticFrc_eq"
 ).split()]
 TRUSTED = [
     "correspondence harness harness/props/c06.py (numeric comparison 1e-9*scale, exact for index vectors) and its "
@@ -190,6 +195,67 @@ def gen_structure(rng, ngrids, aniso=False, kinds=(0, 1, 2, 3), L=None):
                 A3=A3, masses=masses, kscale=kscale, L=L)
 
 
+def add_special(st, rng, kind, attach, cskind=0):
+    """append one grid to a generated structure (it becomes a boundary grid):
+      'massless6'    no mass at all, 6-DOF springs to the grids `attach` (boundary grids only, so its Craig-Bampton
+                     mass columns vanish while its stiffness does not: massless DOF with stiffness);
+      'massless-rot' translational mass only, otherwise the same (three massless rotations with stiffness);
+      'pinned'       ball joint: translational mass, springs that act on its translations only and are attached AT the
+                     grid, so its three rotations have neither stiffness nor mass (null columns in both matrices and
+                     zero-stiffness boundary DOF for _cbcoordchk)."""
+    n0 = st["Kb"].shape[0]
+    ng = n0 // 6
+    L, ks = st["L"], st["kscale"]
+    p = rng.uniform(-1, 1, 3) * L
+    cs, fr = gen_cs(rng, cskind, 100 + ng, p, L)
+    n = n0 + 6
+    K = np.zeros((n, n))
+    K[:n0, :n0] = st["Kb"]
+    M = np.zeros((n, n))
+    M[:n0, :n0] = st["Mb"]
+    xyz = np.vstack([st["xyz"], p])
+    for j in attach:
+        B = rng.standard_normal((6, 6))
+        ke = (B @ B.T + 0.5 * np.eye(6)) * ks
+        ke[3:, :] *= L
+        ke[:, 3:] *= L
+        if kind == "pinned":
+            ke[3:, :] = 0
+            ke[:, 3:] = 0
+            q = p.copy()
+        else:
+            q = (p + xyz[j]) / 2 + rng.uniform(-1, 1, 3) * L * 0.3
+        D = np.zeros((6, n))
+        D[:, n0:] = rb6(q, p)
+        D[:, 6 * j:6 * j + 6] = -rb6(q, xyz[j])
+        K += D.T @ ke @ D
+    mass = float(rng.uniform(0.5, 3.0))
+    if kind in ("pinned", "massless-rot"):
+        M[n0:n0 + 3, n0:n0 + 3] = mass * st["A3"]
+    else:
+        mass = 0.0
+    if kind == "pinned":
+        # exact zeros (the assembly above leaves round-off in products with the zero rows of ke)
+        K[n0 + 3:, :] = 0
+        K[:, n0 + 3:] = 0
+    G = np.zeros((n, n))
+    G[:n0, :n0] = st["G"]
+    G[n0:n0 + 3, n0:n0 + 3] = fr
+    G[n0 + 3:, n0 + 3:] = fr
+    Ko, Mo = G.T @ K @ G, G.T @ M @ G
+    if kind == "pinned":
+        Ko[n0 + 3:, :] = 0
+        Ko[:, n0 + 3:] = 0
+    if kind != "massless6":
+        Mo[n0 + 3:, :] = 0
+        Mo[:, n0 + 3:] = 0
+    else:
+        Mo[n0:, :] = 0
+        Mo[:, n0:] = 0
+    return dict(st, xyz=xyz, css=st["css"] + [cs], frames=st["frames"] + [fr], Kb=K, Mb=M, K=Ko, M=Mo, G=G,
+                masses=np.append(st["masses"], mass))
+
+
 def rb_truth(st, ref):
     """rigid-body modes of all grids in output coordinates, unit motion of `ref` along basic axes"""
     RB = np.vstack([rb6(p, ref) for p in st["xyz"]])
@@ -220,6 +286,13 @@ def cb_reduce(st, bgrids, nq):
     Kcb[nb:, :nb] = 0
     Kcb[nb:, nb:] = np.diag(w)
     Mcb[nb:, nb:] = np.eye(nq)
+    for X, Y in ((M, Mcb), (K, Kcb)):
+        # a boundary DOF whose physical row is null and that drives no interior DOF has an exactly null reduced
+        # row/column (products with its zero constraint mode leave no round-off, but be explicit)
+        for kk, dof in enumerate(b):
+            if not X[dof].any() and not X[:, dof].any() and not phic[:, kk].any():
+                Y[kk, :] = 0
+                Y[:, kk] = 0
     return dict(Mcb=Mcb, Kcb=Kcb, T=T, w=w, b=b, o=o, phi=phi, cond=np.linalg.cond(Koo))
 
 
@@ -294,18 +367,56 @@ def gen_spec(rng, tier_big=False):
     return spec
 
 
+SPECIALS = ("massless6", "massless-rot", "pinned")
+
+
+def add_special_to_spec(spec, rng, kind):
+    """one more boundary grid of a special kind (see add_special); keeps everything else of the spec"""
+    spec = dict(spec)
+    spec["special"] = kind
+    spec["special_cs"] = int(rng.choice([0, 0, 1, 2, 3])) if any(k != 0 for k in spec["kinds"]) else 0
+    spec["special_attach"] = int(rng.integers(1, 3))
+    spec["ngrids"] += 1
+    spec["nbg"] += 1
+    nbg = spec["nbg"]
+    spec["special_pos"] = int(rng.integers(0, nbg))
+    # the reference grid is never the ball-jointed one (that must raise, see bref_on_special) ...
+    others = [i for i in range(nbg) if i != spec["special_pos"]]
+    spec["brefgrid"] = int(rng.choice(others)) if (kind == "pinned" or rng.random() < 0.6) else spec["special_pos"]
+    perm = list(range(nbg))
+    if spec["reorder"] and rng.random() < 0.75:
+        perm = [int(x) for x in rng.permutation(nbg)]
+    spec["gridperm"] = perm
+    spec["nq"] = max(1, spec["nq"])
+    return spec
+
+
 def build_case(spec):
     rng = np.random.default_rng(spec["seed"])
-    st = gen_structure(rng, spec["ngrids"], aniso=spec["aniso"], kinds=tuple(spec["kinds"]))
+    special = spec.get("special")
+    nsp = 1 if special else 0
+    st = gen_structure(rng, spec["ngrids"] - nsp, aniso=spec["aniso"], kinds=tuple(spec["kinds"]))
     nbg = spec["nbg"]
-    bgrids = [int(x) for x in rng.choice(spec["ngrids"], nbg, replace=False)]
+    bgrids = [int(x) for x in rng.choice(spec["ngrids"] - nsp, nbg - nsp, replace=False)]
+    if special:
+        rs = np.random.default_rng(list(spec["seed"]) + [17])
+        pool = bgrids if special != "pinned" else list(range(spec["ngrids"] - 1))
+        attach = [int(x) for x in rs.choice(pool, min(len(pool), spec["special_attach"]), replace=False)]
+        st = add_special(st, rs, special, attach, spec.get("special_cs", 0))
+        bgrids.insert(spec["special_pos"], spec["ngrids"] - 1)
     variant = spec["variant"]
-    if variant == "grounded":
-        g = int(rng.integers(0, spec["ngrids"]))
+    if variant in ("grounded", "grounded1"):
+        g = int(rng.integers(0, spec["ngrids"] - nsp))
         B = rng.standard_normal((6, 6))
         kg = (B @ B.T + np.eye(6)) * st["kscale"] * spec.get("ground", 0.05)
         kg[3:, :] *= st["L"]
         kg[:, 3:] *= st["L"]
+        if variant == "grounded1":
+            # grounded through ONE degree of freedom: a scalar spring to ground
+            d = int(rng.integers(0, 6))
+            kd = kg[d, d]
+            kg = np.zeros((6, 6))
+            kg[d, d] = kd
         Gg = st["G"][6 * g:6 * g + 6, 6 * g:6 * g + 6]
         st = dict(st)
         st["K"] = st["K"].copy()
@@ -348,9 +459,12 @@ def build_case(spec):
     else:
         uref_xyz = np.zeros(3)
         uref = (0, 0, 0)
+    # boundary DOF (in [b..., q...] numbering) without stiffness / without mass
+    zk = np.nonzero(~red["Kcb"][:nb, :nb].any(axis=0))[0]
+    zm = np.nonzero(~red["Mcb"][:, :nb].any(axis=0))[0]
     return dict(spec=spec, st=st, bgrids=bgrids, red=red, nb=nb, nq=nq, n=n, pos_b=pos_b, pos_q=pos_q,
                 Min=Min, Kin=Kin, bseto=bseto, bref=bref, ids=ids, uset=uset, uref=uref,
-                uref_xyz=np.asarray(uref_xyz, float), moved=moved)
+                uref_xyz=np.asarray(uref_xyz, float), moved=moved, zero_k=zk, zero_m=zm)
 
 
 def truth_of(case):
@@ -386,7 +500,59 @@ def truth_of(case):
     out["percent"] = out["effmass"] * (100 / np.diag(out["mg"]))
     # boundary residual with the retained modes: total - sum(effmass)
     out["KRB"] = np.abs(K @ RBg).max()
+    # boundary DOF without stiffness (ball joints): _cbcoordchk leaves zero rows there (only when lb > 6)
+    zr = np.array([kk for kk, dof in enumerate(b_phys) if not K[dof].any()], dtype=int) if len(b_phys) > 6 \
+        else np.zeros(0, dtype=int)
+    out["zero_rows"] = zr
+    out["rbs_b"] = out["rbs_b"].copy()
+    out["rbs_b"][zr] = 0.0
+    out["rbnorm"] = bool(rbnorm)
+    # coordinates cbcoordchk derives from the stiffness-based modes
+    xyzb = st2["xyz"][[bgrids[g] for g in perm]]
+    F = st2["frames"][refgrid]
+    out["refframe"] = F
+    out["coords"] = (xyzb - uref_xyz) if rbnorm else (xyzb - st2["xyz"][refgrid]) @ F
+    # mass properties of the physical structure (converted units): total, cg, inertia about the cg in basic axes
+    masses = st["masses"] * mc
+    mt = masses.sum()
+    cg = (masses[:, None] * st2["xyz"]).sum(axis=0) / mt
+    Icg = np.zeros((3, 3))
+    for i, p in enumerate(st2["xyz"]):
+        X = skew(p - cg)
+        Icg += st["Mb"][6 * i + 3:6 * i + 6, 6 * i + 3:6 * i + 6] * mc * lc ** 2 + masses[i] * X.T @ st["A3"] @ X
+    out.update(mt=mt, cg=cg, Icg=Icg, cg_g=cg - uref_xyz,
+               cg_s=(cg - uref_xyz) if rbnorm else F.T @ (cg - st2["xyz"][refgrid]),
+               Icg_s=Icg if rbnorm else F.T @ Icg @ F, iso=not spec["aniso"])
+    out["Kcb"], out["Mcb"], out["nb"] = red2["Kcb"], red2["Mcb"], len(b_phys)
+    out["kbb_b"] = K_b = red2["Kcb"][:len(b_phys), :len(b_phys)]
+    # K_cb in the output order of the b-set (b_phys is the physical numbering; red2 is in bgrids order)
+    order_b = np.concatenate([np.arange(6 * g, 6 * g + 6) for g in perm])
+    out["kbb_out"] = K_b[np.ix_(order_b, order_b)]
     return out
+
+
+def pencil_truth(Kcb, Mcb, nb):
+    """finite eigenvalues of the pencil (K, M) by QZ - no reduction formula involved - and the boundary
+    stiffness / value-check numbers of the pencil after its massless DOF are condensed (Schur complement, numpy)"""
+    import scipy.linalg as la
+
+    n = Kcb.shape[0]
+    keep = np.nonzero(Kcb.any(axis=0) | Mcb.any(axis=0))[0]
+    K1, M1 = Kcb[np.ix_(keep, keep)], Mcb[np.ix_(keep, keep)]
+    ab = la.eigvals(K1, M1, homogeneous_eigvals=True)
+    alpha, beta = ab[0], ab[1]
+    fin = np.abs(beta) > 1e-9 * np.abs(beta).max()
+    w = np.sort(np.abs(np.real(alpha[fin] / beta[fin])))
+    xm = M1.any(axis=0)
+    isb = keep < nb
+    if (~xm).any():
+        zz = np.ix_(~xm, ~xm)
+        Kx = K1[np.ix_(xm, xm)] - K1[np.ix_(xm, ~xm)] @ np.linalg.solve(K1[zz], K1[np.ix_(~xm, xm)])
+    else:
+        Kx = K1
+    bx = isb[xm]
+    return dict(w=w, nred=int(xm.sum()), kbb_max=float(np.abs(Kx[np.ix_(bx, bx)]).max(initial=0.0)),
+                null=[int(i) for i in np.setdiff1d(np.arange(n), keep)], massless=[int(i) for i in np.nonzero(~xm)[0]])
 
 
 def run_cbcheck(case):
@@ -397,7 +563,8 @@ def run_cbcheck(case):
     conv = spec["conv"]
     if isinstance(conv, list):
         conv = tuple(conv)
-    nff = max(6, min(10, case["n"] - 1))
+    nred = case["n"] - len(case.get("zero_m", ()))  # size of the free-free problem after trimming / Guyan reduction
+    nff = max(6, min(10, nred - 1))
     with warnings.catch_warnings():
         warnings.simplefilter("ignore")
         out = cb.cbcheck(f, case["Min"].copy(), case["Kin"].copy(), case["bseto"].copy(), case["bref"].copy(),
@@ -426,23 +593,138 @@ def _block(txt, header, nrows, ncols, skip=0):
     return None
 
 
+def _rows_after(txt, start, ncols, lead=0, stop=None, label=None):
+    """numeric rows following position `start`: every line that has exactly lead+ncols numbers (and, if `label` is given,
+    starts with it) until the first non-matching line after at least one row; returns (array of the last ncols numbers,
+    array of the lead columns, position after the block)"""
+    rows, leads = [], []
+    pos = start
+    for ln in txt[start:].split("\n"):
+        pos += len(ln) + 1
+        body = ln.strip()
+        if stop is not None and stop in ln:
+            break
+        if label is not None:
+            if not body.startswith(label):
+                if rows:
+                    break
+                continue
+            body = body[len(label):]
+        vals = re.findall(_NUM, body)
+        words = re.sub(_NUM, "", body).replace(",", "").strip()
+        if len(vals) == lead + ncols and words == "":
+            leads.append([float(v) for v in vals[:lead]])
+            rows.append([float(v) for v in vals[lead:]])
+        elif rows:
+            break
+    return np.array(rows).reshape(len(rows), ncols), np.array(leads).reshape(len(rows), lead), pos
+
+
+def _dist_table(txt, title):
+    """the three rows Stiffness / Geometry / Eigensolution of a `_wrtdist` table"""
+    i = txt.find(title)
+    out = {}
+    if i < 0:
+        return out
+    for ln in txt[i:i + 900].split("\n")[1:]:
+        for nm, key in (("Stiffness", "s"), ("Geometry", "g"), ("Eigensolution", "e")):
+            if ln.strip().startswith(nm) and key not in out:
+                v = re.findall(_NUM, ln)
+                if len(v) >= 3:
+                    out[key] = np.array([float(t) for t in v[-3:]])
+        if len(out) == 3:
+            break
+    return out
+
+
 def parse_report(txt):
+    """every numeric table of the cbcheck report (print precision), keyed by what it is"""
     rep = {}
     for key in ("stiffness", "geometry", "eigensolution"):
         rep["mass_" + key] = _block(txt, "6x6 mass matrix from %s-based rb modes:" % key, 6, 6)
         rep["ground_" + key] = _block(txt, "Summation of %s-based rb-forces: RB'*K*RB:" % key, 6, 6)
-    i = txt.find("Distance to CG location from relevant reference point:")
-    cg = {}
-    if i >= 0:
-        for ln in txt[i:i + 900].split("\n"):
-            for nm, key in (("Stiffness", "s"), ("Geometry", "g"), ("Eigensolution", "e")):
-                if ln.strip().startswith(nm) and key not in cg:
-                    v = re.findall(_NUM, ln)
-                    if len(v) >= 3:
-                        cg[key] = np.array([float(t) for t in v[-3:]])
-    rep["cg"] = cg
+        # K*RB per DOF: `id dof` + 6 numbers, then `modal i` + 6 numbers
+        i = txt.find("K*RB using %s-based rb modes:" % key)
+        if i >= 0:
+            j = txt.find("Summation of %s-based" % key, i)
+            sect = txt[i:j]
+            rows, mrows = [], []
+            for ln in sect.split("\n")[3:]:
+                v = re.findall(_NUM, ln)
+                if ln.strip().startswith("modal") and len(v) == 7:
+                    mrows.append([float(t) for t in v[1:]])
+                elif len(v) == 8 and not re.search(r"[A-Za-z]", ln):
+                    rows.append([float(t) for t in v[2:]])
+            rep["krb_" + key] = np.array(rows).reshape(-1, 6)
+            rep["krbq_" + key] = np.array(mrows).reshape(-1, 6)
+        i = txt.find("%s-based Inertia Matrix @ CG" % key.capitalize())
+        if i >= 0:
+            I, _, pos = _rows_after(txt, i + 10, 3)
+            rep["inertia_" + key] = I if I.shape == (3, 3) else None
+            j = txt.find("Principal Axis Moments of Inertia:", i)
+            P, _, _ = _rows_after(txt, j + 10, 3)
+            rep["pinertia_" + key] = P[0] if len(P) else None
+    rep["cg"] = _dist_table(txt, "Distance to CG location from relevant reference point:")
+    rep["gyr"] = _dist_table(txt, "Radius of gyration about X, Y, Z axes (from CG):")
+    rep["pgyr"] = _dist_table(txt, "Radius of gyration about principal axes (from CG):")
     rep["refchk"] = "pass" if "Check: PASS" in txt else ("fail" if "Check: FAIL" in txt else "single")
+    # coordinates determined from the stiffness-based modes (rbdispchk)
+    i = txt.find("Stiffness-based coordinates")
+    j = txt.find("Maximum absolute coordinate location error:")
+    if i >= 0 and j >= 0:
+        k = txt.find("------", i)
+        T, lead, _ = _rows_after(txt, k, 4, lead=2, stop="Maximum absolute")
+        rep["coords"], rep["coord_err"] = T[:, :3], T[:, 3]
+        rep["coord_ids"] = [int(x) for x in lead[:, 1]] if len(lead) else []
+        v = re.findall(_NUM, txt[j:j + 90].split(":")[1])
+        rep["coord_maxerr"] = float(v[0]) if v else None
+    rep["coord_warnings"] = txt.count("Warning: deviation from standard pattern")
+    for key, ttl in (("move_t", "RB Translation Movement Check"), ("move_r", "RB Rotation Movement Check")):
+        i = txt.find(ttl)
+        if i >= 0:
+            k = txt.find("---------", i)
+            T, lead, _ = _rows_after(txt, k, 9, lead=1)
+            rep[key] = T
+    # free-free modes
+    i = txt.find("FREE-FREE MODES:")
+    if i >= 0:
+        k = txt.find("----", i)
+        T, lead, _ = _rows_after(txt, k, 1, lead=1)
+        rep["ff"] = T[:, 0]
+    # modal effective mass table
+    i = txt.find("FIXED-BASE MODES w/ Percent Modal Effective Mass:")
+    if i >= 0:
+        k = txt.find("--------  --------------", i)
+        T, lead, _ = _rows_after(txt, k, 6, lead=2, stop="Total Effective Mass")
+        rep["em_percent"], rep["em_frq"] = T, (lead[:, 1] if len(lead) else np.zeros(0))
+        rep["em_modes"] = [int(x) for x in lead[:, 0]] if len(lead) else []
+        j = txt.find("Total Effective Mass:", i)
+        v = re.findall(_NUM, txt[j:].split("\n")[0].split(":")[1]) if j >= 0 else []
+        rep["em_total"] = np.array([float(t) for t in v]) if len(v) == 6 else None
+    rep["no_modes_note"] = "There are no modes for the modal-effective-mass check." in txt
+    # matrix value checks
+    vals = {}
+    for key, lbl in (("mqq_diag", "Maximum value of diag(MQQ)-1.0"), ("mqq_off", "Maximum off-diagonal value of MQQ"),
+                     ("kbb_max", "Maximum value of KBB"), ("kbq_max", "Maximum value of KBQ"),
+                     ("kqq_off", "Maximum off-diagonal value of KQQ"), ("kqq_min", "Minimum diagonal value of KQQ")):
+        i = txt.find(lbl)
+        if i >= 0:
+            v = re.findall(_NUM, txt[i + len(lbl):].split("\n")[0].split("(")[0])
+            if v:
+                vals[key] = float(v[0])
+    rep["vals"] = vals
+    rep["trim_null"] = _pv_line(txt, "Trimming out null columns")
+    rep["trim_massless"] = _pv_line(txt, "There are massless DOF with stiffness.")
     return rep
+
+
+def _pv_line(txt, header):
+    i = txt.find(header)
+    if i < 0:
+        return None
+    j = txt.find("pv = [", i)
+    k = txt.find("]", j)
+    return [int(x) for x in txt[j + 6:k].split()]
 
 
 # ---------------------------------------------------------------------------------------
@@ -641,14 +923,25 @@ def cbcheck_specs(ctx, rng, n):
         tries += 1
         spec = gen_spec(rng, ctx.thorough)
         r = rng.random()
-        if r < 0.15:
+        if r < 0.11:
             spec["variant"] = "grounded"
             spec["ground"] = float(10 ** rng.uniform(-2, 0))
-        elif r < 0.3 and spec["nbg"] > 1:
+        elif r < 0.19:
+            spec["variant"] = "grounded1"
+            spec["ground"] = float(10 ** rng.uniform(-2, 0))
+        elif r < 0.32 and spec["nbg"] > 1:
             spec["variant"] = "perturbed"
             spec["shift"] = float(10 ** rng.uniform(-1.5, 0))
+        if spec["variant"] != "perturbed" and spec["nbg"] < 4 and rng.random() < 0.4:
+            spec = add_special_to_spec(spec, rng, SPECIALS[len(specs) % 3])
+            if spec["special"] == "pinned" and rng.random() < 0.15:
+                spec["brefgrid"] = spec["special_pos"]  # a reference DOF without stiffness: must raise RuntimeError
         specs.append(spec)
     return specs
+
+
+def _bref_on_pinned(spec):
+    return spec.get("special") == "pinned" and spec["brefgrid"] == spec["special_pos"]
 
 
 def cbcheck_request(case):
@@ -670,19 +963,31 @@ def cbcheck_request(case):
 
 def parse_cbcheck_reply(rep, n, nb):
     t = rep.split(" ")
+    if t[0] in ("raise-refpoint", "raise-singular"):
+        return {"chk": t[0]}
     if t[0] not in ("pass", "fail", "single"):
         raise Infra("C06 driver: unexpected cbcheck reply %r" % rep[:80])
-    v = unbits(t[1:])
     nq = n - nb
+    ng = nb // 6
+    shapes = (("m", (n, n)), ("k", (n, n)), ("rbs", (n, 6)), ("rbg", (nb, 6)), ("ms", (6, 6)),
+              ("mg", (6, 6)), ("effmass", (nq, 6)), ("percent", (nq, 6)), ("frq", (nq,)),
+              ("resid", (6, 6)), ("ds", (3,)), ("dg", (3,)), ("gyrs", (3,)), ("gyrg", (3,)), ("Is", (3, 3)),
+              ("Ig", (3, 3)), ("rbfs", (n, 6)), ("Ss", (6, 6)), ("rbfg", (nb, 6)), ("Sg", (6, 6)),
+              ("rsss", (ng, 3)), ("rssg", (ng, 3)), ("rots", (ng, 3)), ("rotg", (ng, 3)), ("coords", (ng, 3)),
+              ("errs", (ng,)), ("vals", (6,)))
+    nfl = sum(int(np.prod(sh)) for _, sh in shapes)
+    v = unbits(t[1:1 + nfl])
     out, k = {"chk": t[0]}, 0
-    for name, shape in (("m", (n, n)), ("k", (n, n)), ("rbs", (n, 6)), ("rbg", (nb, 6)), ("ms", (6, 6)),
-                        ("mg", (6, 6)), ("effmass", (nq, 6)), ("percent", (nq, 6)), ("frq", (nq,)),
-                        ("resid", (6, 6))):
+    for name, shape in shapes:
         sz = int(np.prod(shape))
         out[name] = v[k:k + sz].reshape(shape)
         k += sz
-    if k != len(v):
-        raise Infra("C06 driver: cbcheck reply has %d floats, expected %d" % (len(v), k))
+    tail = [int(x) for x in t[1 + nfl:]]
+    if len(tail) < 3 or len(tail) != 3 + tail[1] + tail[2]:
+        raise Infra("C06 driver: cbcheck reply has a malformed integer tail %r" % tail[:8])
+    out["ntrim"], nnull, nml = tail[:3]
+    out["null"] = tail[3:3 + nnull]
+    out["massless"] = tail[3 + nnull:]
     return out
 
 
@@ -698,7 +1003,159 @@ def spec_branches(spec):
         br.append("mass:unequal-translational")
     if any(k in (2, 3) for k in spec["kinds"]):
         br.append("cs:curvilinear-possible")
+    if spec.get("special"):
+        br.append("special:" + spec["special"])
+        if spec["brefgrid"] == spec["special_pos"]:
+            br.append("special:is-reference-grid")
     return br
+
+
+def _tab_close(ctx, stream, inp, what, printed, want, half, rel=1e-8, scale=None):
+    """a printed table against its values: |printed - want| <= half (half a unit of the last printed digit, with
+    head-room) + rel * scale"""
+    if printed is None:
+        ctx.disagree(stream, inp, "%s not found in the report" % what, "a table of shape %s" % (np.shape(want),))
+        return False
+    printed, want = np.asarray(printed, float), np.asarray(want, float)
+    if printed.shape != want.shape:
+        ctx.disagree(stream, inp, {"what": what, "shape": list(printed.shape)}, {"shape": list(want.shape)})
+        return False
+    if want.size == 0:
+        return True
+    fin = np.isfinite(want)
+    sc = scale if scale is not None else (np.abs(want[fin]).max() if fin.any() else 1.0)
+    bad = fin & ~(np.abs(printed - np.where(fin, want, 0.0)) <= half + rel * sc)
+    if bad.any():
+        j = int(np.argmax(bad.ravel()))
+        ctx.disagree(stream, inp, {"what": what, "index": j, "printed": float(printed.ravel()[j])},
+                     {"value": float(want.ravel()[j])})
+        return False
+    return True
+
+
+def compare_cbcheck(ctx, cmp, case, out, txt, mo):
+    """everything cbcheck returns and prints against the Lean model's values (numeric, print precision for the report)"""
+    spec = case["spec"]
+    inp = {"spec": spec}
+    rp = parse_report(txt)
+    n, nb, nq = case["n"], case["nb"], case["nq"]
+    ng = nb // 6
+    cmp("cbcheck-m", "m", inp, out.m, mo["m"], None, 1e-12)
+    cmp("cbcheck-k", "k", inp, out.k, mo["k"], None, 1e-12)
+    want_bset = np.arange(nb) if spec["reorder"] else np.sort(case["bseto"])
+    if not np.array_equal(out.bset, want_bset):
+        ctx.disagree("cbcheck-bset", inp, out.bset.tolist(), want_bset.tolist())
+    sc_rb = max(1.0, np.abs(mo["rbs"]).max())
+    sc_g = max(1.0, np.abs(mo["rbg"]).max())
+    cmp("cbcheck-rbg", "rbg", inp, out.rbg, mo["rbg"], sc_g)
+    cmp("cbcheck-rbs", "rbs", inp, out.rbs, mo["rbs"], sc_rb)
+    free = spec["variant"] not in ("grounded", "grounded1")
+    if free:
+        # eigen-solver specification: span(v[:, :6]) = null(K); tolerance of the shift-invert solve.  With massless /
+        # null DOF this also ties the back expansion of _solve_eig (psi @ v on massless rows, zero on null rows)
+        cmp("cbcheck-rbe", "rbe", inp, out.rbe, mo["rbs"], sc_rb, 1e-7)
+    cmp("cbcheck-effmass", "effmass", inp, out.effmass.values, mo["effmass"], max(np.abs(np.diag(mo["mg"])).max(), 1e-300))
+    if nq:
+        with np.errstate(invalid="ignore", divide="ignore"):
+            cmp("cbcheck-effmass", "effmass_percent", inp, out.effmass_percent.values, mo["percent"],
+                max(100.0, np.nanmax(np.abs(mo["percent"]))))
+    cmp("cbcheck-frq", "cb_frq", inp, out.cb_frq, mo["frq"])
+    cmp("cbcheck-frq", "effmass index", inp, np.asarray(out.effmass.index, float), mo["frq"])
+    kbbmax = max(np.abs(out.k[np.ix_(out.bset, out.bset)]).max(), 1e-300)
+    if rp["refchk"] != mo["chk"]:
+        margin = np.abs(mo["resid"]).max() / kbbmax
+        if 1e-9 < margin < 1e-3:
+            ctx.skip("refpoint_chk within a decade of its threshold")
+        else:
+            ctx.disagree("cbcheck-refchk", inp, rp["refchk"], mo["chk"])
+    # --- zero-stiffness trimming (_cbcoordchk) and the two reductions of _solve_eig: which DOF (exact)
+    zk_new = sorted(_positions_after(case, case["zero_k"]))
+    if mo["ntrim"] != (len(zk_new) if nb > 6 else 0):
+        ctx.disagree("cbcheck-trim", inp, {"zero-stiffness boundary DOF": zk_new}, {"model trimmed": mo["ntrim"]})
+    if (rp["trim_null"] or []) != mo["null"]:
+        ctx.disagree("cbcheck-trim", inp, {"printed null columns": rp["trim_null"]}, {"model": mo["null"]})
+    if (rp["trim_massless"] or []) != mo["massless"]:
+        ctx.disagree("cbcheck-trim", inp, {"printed massless DOF": rp["trim_massless"]}, {"model": mo["massless"]})
+    if mo["ntrim"]:
+        ctx.count("coordchk:zero-stiffness-trimmed")
+    if mo["null"]:
+        ctx.count("solve_eig:null-columns-trimmed")
+    if mo["massless"]:
+        ctx.count("solve_eig:massless-guyan-reduced")
+    # --- the printed report (print precision; half a unit of the last digit with head-room)
+    R = "cbcheck-report"
+    kmx = max(np.abs(mo["k"]).max(), 1e-300)
+    mmx = max(np.abs(mo["ms"]).max(), np.abs(mo["mg"]).max(), 1e-300)
+    fin_s = bool(np.all(np.isfinite(mo["ms"])))
+    _tab_close(ctx, R, inp, "6x6 stiffness mass", rp["mass_stiffness"], mo["ms"], 0.6e-4, 1e-8, mmx)
+    _tab_close(ctx, R, inp, "6x6 geometry mass", rp["mass_geometry"], mo["mg"], 0.6e-4, 1e-8, mmx)
+    for key, dm, gy, In in (("s", mo["ds"], mo["gyrs"], mo["Is"]), ("g", mo["dg"], mo["gyrg"], mo["Ig"])):
+        nm = {"s": "stiffness", "g": "geometry"}[key]
+        lsc = max(1.0, np.abs(dm[np.isfinite(dm)]).max(initial=0.0))
+        _tab_close(ctx, R, inp, "printed cg (%s)" % key, rp["cg"].get(key), dm, 0.6e-6, 1e-8, lsc)
+        _tab_close(ctx, R, inp, "radius of gyration (%s)" % key, rp["gyr"].get(key), gy, 0.6e-6, 1e-7,
+                   max(1.0, np.abs(gy[np.isfinite(gy)]).max(initial=0.0)))
+        _tab_close(ctx, R, inp, "inertia @ cg (%s)" % key, rp.get("inertia_" + nm), In, 0.6e-4, 1e-7, mmx)
+    rbmx = max(1.0, np.abs(mo["rbs"]).max(), np.abs(mo["rbg"]).max())
+    gtol = 1e-9 * kmx * rbmx
+    _tab_close(ctx, R, inp, "K*RB (stiffness), boundary rows", rp.get("krb_stiffness"), mo["rbfs"][:nb], 0.6e-3, 1.0, gtol)
+    _tab_close(ctx, R, inp, "K*RB (stiffness), modal rows", rp.get("krbq_stiffness"), mo["rbfs"][nb:], 0.6e-3, 1.0, gtol)
+    _tab_close(ctx, R, inp, "K*RB (geometry)", rp.get("krb_geometry"), mo["rbfg"], 0.6e-3, 1.0, gtol)
+    _tab_close(ctx, R, inp, "RB'*K*RB (stiffness)", rp["ground_stiffness"], mo["Ss"], 0.6e-3, 1.0, gtol * rbmx)
+    _tab_close(ctx, R, inp, "RB'*K*RB (geometry)", rp["ground_geometry"], mo["Sg"], 0.6e-3, 1.0, gtol * rbmx)
+    if rp.get("move_t") is not None and rp["move_t"].shape == (ng, 9):
+        _tab_close(ctx, R, inp, "translation movement (stiffness)", rp["move_t"][:, :3], mo["rsss"], 0.6e-3, 1e-8, sc_rb)
+        _tab_close(ctx, R, inp, "translation movement (geometry)", rp["move_t"][:, 3:6], mo["rssg"], 0.6e-3, 1e-8, sc_g)
+        _tab_close(ctx, R, inp, "rotation movement (stiffness)", rp["move_r"][:, :3], mo["rots"], 0.6e-3, 1e-8, sc_rb)
+        _tab_close(ctx, R, inp, "rotation movement (geometry)", rp["move_r"][:, 3:6], mo["rotg"], 0.6e-3, 1e-8, sc_g)
+    else:
+        ctx.disagree(R, inp, "movement check tables not found", "%d rows of 9 numbers" % ng)
+    csc = max(1.0, np.abs(mo["coords"]).max())
+    _tab_close(ctx, R, inp, "stiffness-based coordinates", rp.get("coords"), mo["coords"], 0.6e-2, 1e-8, csc)
+    if rp.get("coord_err") is not None and len(rp["coord_err"]) == ng:
+        # errors of a valid model are round-off (not comparable digit by digit): compare above 1e-9 * scale only
+        big = np.abs(mo["errs"]) > 1e-7 * csc
+        if not np.all(np.abs(rp["coord_err"] - mo["errs"])[big] <= 1e-3 * np.abs(mo["errs"])[big] + 1e-7 * csc) or \
+                not np.all(np.abs(rp["coord_err"][~big]) <= 2e-7 * csc):
+            ctx.disagree(R, inp, {"what": "coordinate errors", "printed": rp["coord_err"].tolist()}, mo["errs"].tolist())
+        warn_model = int(np.sum(mo["errs"] > np.abs(mo["coords"]).max(axis=1) * 1e-4))
+        near = np.any(np.abs(mo["errs"] - np.abs(mo["coords"]).max(axis=1) * 1e-4) <= 1e-3 * np.abs(mo["errs"]) + 1e-12 * csc)
+        if rp["coord_warnings"] != warn_model and not near:
+            ctx.disagree(R, inp, {"what": "pattern warnings", "printed": rp["coord_warnings"]}, warn_model)
+    ids_model = [case["ids"][g] for g in (spec["gridperm"] if spec["reorder"] else range(spec["nbg"]))]
+    if rp.get("coord_ids") != ids_model:
+        ctx.disagree(R, inp, {"what": "ids of the coordinate table", "printed": rp.get("coord_ids")}, ids_model)
+    # fixed-base table: mode number, frequency (3 decimals), percent (2 decimals), column totals
+    if nq:
+        if rp.get("em_percent") is None or rp["em_modes"] != list(range(1, nq + 1)):
+            ctx.disagree(R, inp, {"what": "effective mass table rows", "modes": rp.get("em_modes")}, list(range(1, nq + 1)))
+        elif np.all(np.isfinite(mo["percent"])):
+            _tab_close(ctx, R, inp, "effective mass table: percent", rp["em_percent"], mo["percent"], 0.6e-2, 1e-7, 100.0)
+            _tab_close(ctx, R, inp, "effective mass table: frequency", rp["em_frq"], mo["frq"], 0.6e-3, 1e-9)
+            _tab_close(ctx, R, inp, "effective mass table: totals", rp["em_total"], mo["percent"].sum(axis=0), 0.6e-2, 1e-7, 100.0)
+    # matrix value checks (%g, 6 significant digits) on the matrices _solve_eig hands back
+    for j, key in enumerate(("mqq_diag", "mqq_off", "kbb_max", "kbq_max", "kqq_off", "kqq_min")):
+        got = rp["vals"].get(key)
+        want = float(mo["vals"][j])
+        if got is None:
+            ctx.disagree(R, inp, "value check line %s not found" % key, want)
+        elif not abs(got - want) <= 2e-5 * abs(want) + (1e-9 * kmx if key.startswith("k") else 1e-12):
+            ctx.disagree(R, inp, {"what": "value check " + key, "printed": got}, want)
+    ids_impl = [int(x) for x in out.uset.index.get_level_values("id")[::6]]
+    if ids_impl != ids_model:
+        ctx.disagree("cbcheck-uset-order", inp, ids_impl, ids_model)
+
+
+def _positions_after(case, bdofs):
+    """where the boundary DOF `bdofs` (indices into the physical boundary order of build_case) end up in cbcheck's
+    output b-set: after reordering the b-set is listed grid by grid in `gridperm` order"""
+    spec = case["spec"]
+    perm = spec["gridperm"] if spec["reorder"] else list(range(spec["nbg"]))
+    pos = {}
+    for newg, g in enumerate(perm):
+        for c in range(6):
+            pos[6 * g + c] = 6 * newg + c
+    return [pos[int(d)] for d in bdofs]
 
 
 def correspondence(ctx):
@@ -764,11 +1221,16 @@ def correspondence(ctx):
         if case["red"]["cond"] > 1e8 or abs(case["red"]["w"] - 1.0).min(initial=9.0) < 1e-3:
             ctx.skip("structure outside conditioning domain")
             continue
-        if case["nb"] > 6:
+        if case["nb"] > 6 and not _bref_on_pinned(spec):
             r0 = 6 * spec["brefgrid"]
-            oo = np.setdiff1d(np.arange(case["nb"]), np.arange(r0, r0 + 6))
-            if np.linalg.cond(kbb[np.ix_(oo, oo)]) > 1e6:
+            oo = np.setdiff1d(np.setdiff1d(np.arange(case["nb"]), np.arange(r0, r0 + 6)), case["zero_k"])
+            if len(oo) and np.linalg.cond(kbb[np.ix_(oo, oo)]) > 1e6:
                 ctx.skip("koo of the boundary stiffness ill-conditioned (> 1e6)")
+                continue
+        if len(case["zero_m"]) > len(case["zero_k"]):
+            zz = np.setdiff1d(case["zero_m"], case["zero_k"])
+            if np.linalg.cond(case["red"]["Kcb"][np.ix_(zz, zz)]) > 1e8:
+                ctx.skip("stiffness of the massless DOF ill-conditioned (> 1e8)")
                 continue
         cb_cases.append(case)
         req.append(cbcheck_request(case))
@@ -835,7 +1297,6 @@ def correspondence(ctx):
         ctx.case(("conv", c["lt"], tuple(c["b"]), str(c["conv"]), c["drm"]),
                  branch="convert:" + ("tuple" if isinstance(c["conv"], list) else c["conv"]) + ("-drm" if c["drm"] else ""))
     # F
-    worst_solve = 0.0
     for case in cb_cases:
         spec = case["spec"]
         mo = parse_cbcheck_reply(rep[k], case["n"], case["nb"])
@@ -846,56 +1307,20 @@ def correspondence(ctx):
             ctx.count(b)
         try:
             out, txt = run_cbcheck(case)
+        except RuntimeError as e:
+            if mo["chk"] == "raise-refpoint" and "reference point has DOF with zero stiffness" in str(e):
+                ctx.count("cbcheck:raises-refpoint-zero-stiffness")
+            else:
+                ctx.disagree("cbcheck", inp, "exception RuntimeError: %s" % str(e)[:200], mo["chk"])
+            continue
         except Exception as e:  # the model has no exception for these inputs
             ctx.disagree("cbcheck", inp, "exception %s: %s" % (type(e).__name__, str(e)[:200]), "a result")
             continue
-        rp = parse_report(txt)
-        n, nb = case["n"], case["nb"]
-        cmp("cbcheck-m", "m", inp, out.m, mo["m"], None, 1e-12)
-        cmp("cbcheck-k", "k", inp, out.k, mo["k"], None, 1e-12)
-        want_bset = np.arange(nb) if spec["reorder"] else np.sort(case["bseto"])
-        if not np.array_equal(out.bset, want_bset):
-            ctx.disagree("cbcheck-bset", inp, out.bset.tolist(), want_bset.tolist())
-        sc_rb = max(1.0, np.abs(mo["rbs"]).max())
-        cmp("cbcheck-rbg", "rbg", inp, out.rbg, mo["rbg"], max(1.0, np.abs(mo["rbg"]).max()))
-        cmp("cbcheck-rbs", "rbs", inp, out.rbs, mo["rbs"], sc_rb)
-        if spec["variant"] != "grounded":
-            # eigen-solver specification: span(v[:, :6]) = null(K); tolerance of the shift-invert solve
-            cmp("cbcheck-rbe", "rbe", inp, out.rbe, mo["rbs"], sc_rb, 1e-7)
-        cmp("cbcheck-effmass", "effmass", inp, out.effmass.values, mo["effmass"], max(np.abs(np.diag(mo["mg"])).max(), 1e-300))
-        if case["nq"]:
-            with np.errstate(invalid="ignore", divide="ignore"):
-                cmp("cbcheck-effmass", "effmass_percent", inp, out.effmass_percent.values, mo["percent"],
-                    max(100.0, np.nanmax(np.abs(mo["percent"]))))
-        cmp("cbcheck-frq", "cb_frq", inp, out.cb_frq, mo["frq"])
-        cmp("cbcheck-frq", "effmass index", inp, np.asarray(out.effmass.index, float), mo["frq"])
-        if rp["refchk"] != mo["chk"]:
-            margin = np.abs(mo["resid"]).max() / max(np.abs(out.k[:nb, :nb]).max(), 1e-300)
-            if 1e-9 < margin < 1e-3:
-                ctx.skip("refpoint_chk within a decade of its threshold")
-            else:
-                ctx.disagree("cbcheck-refchk", inp, rp["refchk"], mo["chk"])
-        # printed mass properties / cg (print precision: 4 and 6 decimals)
-        for key, mm in (("stiffness", mo["ms"]), ("geometry", mo["mg"])):
-            pm = rp["mass_" + key]
-            if pm is None:
-                ctx.disagree("cbcheck-report", inp, "6x6 %s mass block not found in the report" % key, "6x6 block")
-            elif np.all(np.isfinite(mm)) and not np.all(np.abs(pm - mm) <= 0.6e-4 + 1e-8 * np.abs(mm).max()):
-                ctx.disagree("cbcheck-report", inp, {"what": "printed %s mass" % key, "value": pm.tolist()}, mm.tolist())
-        for key, mm in (("s", mo["ms"]), ("g", mo["mg"])):
-            if key in rp["cg"] and np.all(np.isfinite(mm)):
-                dm = np.array([mm[1, 5] / mm[1, 1], mm[2, 3] / mm[2, 2], mm[0, 4] / mm[0, 0]])
-                if not np.all(np.abs(rp["cg"][key] - dm) <= 0.6e-6 + 1e-8 * max(1.0, np.abs(dm).max())):
-                    ctx.disagree("cbcheck-report", inp, {"what": "printed cg (%s)" % key, "value": rp["cg"][key].tolist()}, dm.tolist())
-            elif key not in rp["cg"]:
-                ctx.disagree("cbcheck-report", inp, "cg line (%s) not found" % key, "three numbers")
-        ids_model = None  # uset order: ids after reordering follow bseto
-        perm = spec["gridperm"] if spec["reorder"] else list(range(spec["nbg"]))
-        ids_model = [case["ids"][g] for g in perm]
-        ids_impl = [int(x) for x in out.uset.index.get_level_values("id")[::6]]
-        if ids_impl != ids_model:
-            ctx.disagree("cbcheck-uset-order", inp, ids_impl, ids_model)
-        ctx.sample({"cbcheck_spec": spec, "n": n, "refchk": mo["chk"]}, cap=4)
+        if mo["chk"].startswith("raise"):
+            ctx.disagree("cbcheck", inp, "a result", mo["chk"])
+            continue
+        compare_cbcheck(ctx, cmp, case, out, txt, mo)
+        ctx.sample({"cbcheck_spec": spec, "n": case["n"], "refchk": mo["chk"]}, cap=4)
     ctx.extra["worst_relative_difference"] = cmp.worst
     ctx.require_branches([
         "cgmass:doc-unequal", "cgmass:rigid-equal", "rbgeom:ref-index", "rbgeom:ref-vector",
@@ -1229,12 +1654,20 @@ def oracle_cbcheck(spec):
         tags.append("noreorder")
     if any(np.ndim(c) for c in (case["st"]["css"][g] for g in case["bgrids"])):
         tags.append("localcs")
+    if spec.get("special"):
+        tags.append(spec["special"])
     base = "cbcheck-" + "-".join(tags)
     try:
         res, txt = run_cbcheck(case)
     except Exception as e:
+        if _bref_on_pinned(spec) and isinstance(e, RuntimeError) and "zero stiffness" in str(e):
+            return out  # documented: a reference DOF without stiffness cannot restrain rigid-body motion
         _fail(out, base + "-raises-" + type(e).__name__, "cbcheck raises on a well-formed model", inp,
               "%s: %s" % (type(e).__name__, str(e)[:200]), "a result")
+        return out
+    if _bref_on_pinned(spec):
+        _fail(out, base + "-refpoint-zero-stiffness-accepted", "reference DOF without stiffness must raise RuntimeError", inp,
+              "a result", "RuntimeError")
         return out
     rp = parse_report(txt)
     nb, n, nq = case["nb"], case["n"], case["nq"]
@@ -1253,7 +1686,9 @@ def oracle_cbcheck(spec):
     rbs_b, rbe_b = res.rbs[bsl], res.rbe[bsl]
     scs = max(1.0, np.abs(tr["rbs_b"]).max())
     geometry_ok = variant != "perturbed"
-    free = variant != "grounded"
+    free = variant not in ("grounded", "grounded1")
+    zr = tr["zero_rows"]
+    nzr = np.setdiff1d(np.arange(nb), zr)
     # --- the three rigid-body sets against the structure's true rigid-body motion
     if geometry_ok and not _close(res.rbg, tr["rbg"], 1e-9, max(1.0, np.abs(tr["rbg"]).max()))[0]:
         _fail(out, fam("rbg"), "geometry-based rb modes differ from the true rigid-body motion of the boundary grids",
@@ -1275,7 +1710,7 @@ def oracle_cbcheck(spec):
         else np.arange(6 * spec["brefgrid"], 6 * spec["brefgrid"] + 6)
     with np.errstate(all="ignore"):
         try:
-            geo_dev = np.abs(res.rbg @ np.linalg.inv(res.rbg[refrow]) - rbs_b @ np.linalg.inv(rbs_b[refrow])).max()
+            geo_dev = np.abs((res.rbg @ np.linalg.inv(res.rbg[refrow]) - rbs_b @ np.linalg.inv(rbs_b[refrow]))[nzr]).max()
         except np.linalg.LinAlgError:
             geo_dev = float("inf")
     kg = np.abs(kbb @ res.rbg).max()
@@ -1291,7 +1726,7 @@ def oracle_cbcheck(spec):
         if pg is None or np.abs(pg).max() > 0.0011 + 1e-8 * ks * L * L:
             _fail(out, fam("report-grounding"), "printed RB'*K*RB (stiffness) is not zero", inp,
                   None if pg is None else float(np.abs(pg).max()), "0.000")
-    elif variant == "grounded":
+    elif variant in ("grounded", "grounded1"):
         flagged = (rp["refchk"] == "fail") or ground_ratio > 1e-6
         if not flagged:
             _fail(out, fam("not-flagged"), "a spring to ground is not visible in refpoint_chk / RB'*K*RB", inp,
@@ -1367,7 +1802,167 @@ def oracle_cbcheck(spec):
                 want_res = np.diag(RB.T @ M2 @ RB - v.T @ np.linalg.solve(M2[np.ix_(o, o)], v))
                 if not _close(resid, want_res, 1e-7, tot)[0]:
                     _fail(out, fam("effmass-total"), "effective mass + boundary residual != total mass", inp, resid.tolist(), want_res.tolist())
+    oracle_report(out, fam, inp, case, tr, res, rp, free, geometry_ok)
     return out
+
+
+def _pr_bad(printed, want, half, rel=1e-7, scale=None):
+    """None if the printed table equals `want` at print precision, else a short description"""
+    if printed is None:
+        return "table not found in the report"
+    printed, want = np.asarray(printed, float), np.asarray(want, float)
+    if printed.shape != want.shape:
+        return "shape %s, expected %s" % (printed.shape, want.shape)
+    if want.size == 0:
+        return None
+    sc = scale if scale is not None else max(np.abs(want).max(), 1e-300)
+    err = np.abs(printed - want)
+    if np.all(err <= half + rel * sc):
+        return None
+    j = int(np.argmax(err))
+    return "entry %d printed %r, expected %r" % (j, float(printed.ravel()[j]), float(want.ravel()[j]))
+
+
+def oracle_report(out, fam, inp, case, tr, res, rp, free, geometry_ok):
+    """the printed report against the generator's ground truth: coordinates, movement checks, cg, radii of gyration,
+    inertia, grounding tables, free-free frequencies, effective-mass table, value checks, rbe normalisation"""
+    spec = case["spec"]
+    nb, nq, n = case["nb"], case["nq"], case["n"]
+    ng = nb // 6
+    L, ks = tr["L"], tr["kscale"]
+    zr = tr["zero_rows"]
+    rbn = tr["rbnorm"]
+
+    def chk(q, what, printed, want, half, rel=1e-7, scale=None):
+        bad = _pr_bad(printed, want, half, rel, scale)
+        if bad:
+            _fail(out, fam("report-" + q), "printed %s differs from the structure's ground truth" % what, inp, bad,
+                  "equal at print precision")
+
+    # --- rbe normalisation: identity (or the geometry rows when rb_norm) on the reference DOF
+    bsl = np.asarray(res.bset)
+    refrow = np.array([i for i in range(nb) if spec["gridperm"][i // 6] == spec["brefgrid"]]) if spec["reorder"] \
+        else np.arange(6 * spec["brefgrid"], 6 * spec["brefgrid"] + 6)
+    want_ref = res.rbg[refrow] if rbn else np.eye(6)
+    for nm, rb in (("rbs", res.rbs), ("rbe", res.rbe)):
+        if not _close(rb[bsl][refrow], want_ref, 1e-8, max(1.0, np.abs(want_ref).max()))[0]:
+            _fail(out, fam(nm + "-normalisation"), "%s on the reference DOF is not %s" % (nm, "rbg[bref] (rb_norm)" if rbn else "the identity"),
+                  inp, rb[bsl][refrow].tolist(), want_ref.tolist())
+    # --- stiffness-based coordinates and the pattern errors
+    if free and (geometry_ok or not rbn):
+        chk("coords", "stiffness-based coordinates", rp.get("coords"), tr["coords"], 0.6e-2, 1e-7, max(1.0, np.abs(tr["coords"]).max()))
+        ce = rp.get("coord_err")
+        if ce is None or len(ce) != ng or not np.all(ce <= 1e-7 * max(1.0, np.abs(tr["coords"]).max())) or rp["coord_warnings"]:
+            _fail(out, fam("report-coord-errors"), "rbdispchk reports a deviation from the rigid-body pattern on a valid model", inp,
+                  {"errors": None if ce is None else ce.tolist(), "warnings": rp["coord_warnings"]}, "errors ~ 0, no warning")
+        if rp.get("coord_maxerr") is not None and ce is not None and len(ce) and \
+                abs(rp["coord_maxerr"] - ce.max()) > 1e-3 * ce.max() + 1e-300:
+            _fail(out, fam("report-coord-errors"), "printed maximum error is not the maximum of the error column", inp,
+                  rp["coord_maxerr"], float(ce.max()))
+    if rp.get("coord_ids") != tr["ids"]:
+        _fail(out, fam("report-coords"), "node ids of the coordinate table", inp, rp.get("coord_ids"), tr["ids"])
+    # --- movement checks: unit translation / rotation of every grid (zero where there is no stiffness)
+    if free and geometry_ok and rp.get("move_t") is not None and rp["move_t"].shape == (ng, 9):
+        one_t = np.ones((ng, 3))
+        one_r = np.ones((ng, 3))
+        for kk in zr:
+            (one_t if kk % 6 < 3 else one_r)[kk // 6] = np.nan  # a partly trimmed block: value depends on the axes
+        full_r = np.array([np.all([(6 * g + c) in set(zr.tolist()) for c in (3, 4, 5)]) for g in range(ng)])
+        one_r[full_r] = 0.0
+        for nm, T, want in (("translation", rp["move_t"], one_t), ("rotation", rp["move_r"], one_r)):
+            for c0, lbl, w in ((0, "stiffness", want), (3, "geometry", np.ones((ng, 3))), (6, "eigenvalue", want)):
+                blk = T[:, c0:c0 + 3]
+                m = np.isfinite(w)
+                if not np.all(np.abs(blk - np.where(m, w, 0))[m] <= 1.1e-3):
+                    _fail(out, fam("report-movement"), "%s movement check (%s-based) is not 1.000 (0.000 without stiffness)" % (nm, lbl),
+                          inp, blk.tolist(), w.tolist())
+    elif rp.get("move_t") is None or rp["move_t"].shape != (ng, 9):
+        _fail(out, fam("report-movement"), "movement check tables not found", inp, None, "%d rows" % ng)
+    # --- cg, radii of gyration, inertia
+    if free and geometry_ok:
+        lsc = max(1.0, L)
+        msc = max(np.abs(tr["Icg"]).max(), 1e-300)
+        chk("cg", "cg (geometry)", rp["cg"].get("g"), tr["cg_g"], 0.6e-6, 1e-6, lsc)
+        A3d = np.diag(case["st"]["A3"])
+        chk("gyration", "radius of gyration (geometry)", rp["gyr"].get("g"), np.sqrt(np.diag(tr["Icg"]) / (tr["mt"] * A3d)), 0.6e-6, 1e-6, lsc)
+        chk("inertia", "inertia @ cg (geometry)", rp.get("inertia_geometry"), tr["Icg"], 0.6e-4, 1e-6, msc)
+        if tr["iso"]:
+            pI = np.linalg.eigvalsh(tr["Icg"])
+            for key, nm in (("s", "stiffness"), ("e", "eigensolution"), ("g", "geometry")):
+                rel = 1e-5 if key == "e" else 1e-6
+                if key != "g":
+                    chk("cg", "cg (%s)" % nm, rp["cg"].get(key), tr["cg_s"], 0.6e-6, rel, lsc)
+                    chk("gyration", "radius of gyration (%s)" % nm, rp["gyr"].get(key), np.sqrt(np.diag(tr["Icg_s"]) / tr["mt"]), 0.6e-6, rel, lsc)
+                    chk("inertia", "inertia @ cg (%s)" % nm, rp.get("inertia_" + nm), tr["Icg_s"], 0.6e-4, rel, msc)
+                chk("principal", "principal moments (%s)" % nm, rp.get("pinertia_" + nm), pI, 0.6e-4, rel, msc)
+                chk("principal", "principal radii of gyration (%s)" % nm, rp["pgyr"].get(key), np.sqrt(pI / tr["mt"]), 0.6e-6, rel, lsc)
+    # --- grounding tables
+    kmx = max(np.abs(res.k).max(), 10 * ks * max(1.0, L) ** 2)
+    rbmx = max(1.0, np.abs(tr["rbg"]).max(), np.abs(tr["rbs_b"]).max())
+    if free and geometry_ok:
+        gt = 0.6e-3 + 1e-9 * kmx * rbmx
+        for key in ("stiffness", "geometry", "eigensolution"):
+            rel = 1e-6 if key == "eigensolution" else 1e-9
+            for nm, rows in (("krb_", nb), ("krbq_", nq if key != "geometry" else 0)):
+                T = rp.get(nm + key)
+                if T is None or T.shape != (rows, 6) or not np.all(np.abs(T) <= 0.6e-3 + rel * kmx * rbmx):
+                    _fail(out, fam("report-grounding"), "K*RB table (%s-based) of a free model is not zero / not complete" % key, inp,
+                          None if T is None else [list(T.shape), float(np.abs(T).max(initial=0.0))], "%d rows of zeros" % rows)
+            S = rp["ground_" + key]
+            if S is None or not np.all(np.abs(S) <= 0.6e-3 + rel * kmx * rbmx * rbmx):
+                _fail(out, fam("report-grounding"), "printed RB'*K*RB (%s) is not zero" % key, inp,
+                      None if S is None else float(np.abs(S).max()), "0.000")
+    elif geometry_ok:
+        # grounded: the geometry-based table is Kbb times the true rigid-body motion
+        want = tr["kbb_out"] @ tr["rbg"]
+        chk("grounding", "K*RB (geometry-based) of a grounded model", rp.get("krb_geometry"), want, 0.6e-3, 1e-8, kmx * rbmx)
+        chk("grounding", "RB'*K*RB (geometry-based) of a grounded model", rp.get("ground_geometry"), tr["rbg"].T @ want, 0.6e-3, 1e-8, kmx * rbmx * rbmx)
+    # --- free-free frequencies: the finite eigenvalues of the (K, M) pencil (massless DOF condensed, null DOF dropped)
+    pt = pencil_truth(tr["Kcb"], tr["Mcb"], nb)
+    ff = rp.get("ff")
+    if ff is None or len(ff) == 0:
+        _fail(out, fam("report-freefree"), "free-free frequency table not found", inp, None, "a table")
+    else:
+        want = np.sqrt(pt["w"][:len(ff)]) / (2 * math.pi)
+        # (near-)rigid-body modes are round-off of the shift-invert solve: not comparable digit by digit
+        noise = 1e-4 * math.sqrt(pt["w"].max()) / (2 * math.pi)
+        el = want > noise
+        ok = len(want) == len(ff) and np.all(np.abs(ff - want)[el] <= 0.6e-6 + 1e-6 * np.abs(want[el])) and \
+            np.all(ff[~el] <= 2 * noise) and int((~el).sum()) == (6 if free else int((~el).sum()))
+        if not ok:
+            _fail(out, fam("report-freefree"), "free-free frequencies differ from the finite eigenvalues of the (K, M) pencil", inp,
+                  ff.tolist(), want.tolist())
+    # which DOF were reduced out (the printed pv lists)
+    nullp = sorted(_positions_after(case, [i for i in pt["null"] if i < nb]))
+    if (rp["trim_null"] or []) != nullp:
+        _fail(out, fam("report-trim"), "null columns listed by _solve_eig", inp, rp["trim_null"], nullp)
+    if len(rp["trim_massless"] or []) != len(pt["massless"]):
+        _fail(out, fam("report-trim"), "massless DOF listed by _solve_eig", inp, rp["trim_massless"], "%d DOF" % len(pt["massless"]))
+    # --- fixed-base modes / effective mass table
+    if geometry_ok and free and nq:
+        if rp.get("em_percent") is None or rp.get("em_modes") != list(range(1, nq + 1)):
+            _fail(out, fam("report-effmass"), "effective mass table incomplete", inp, rp.get("em_modes"), "modes 1..%d" % nq)
+        else:
+            chk("effmass", "percent effective mass", rp["em_percent"], tr["percent"], 0.6e-2, 1e-6, 100.0)
+            chk("effmass", "fixed-base frequencies of the table", rp["em_frq"], tr["frq"], 0.6e-3, 1e-8)
+            chk("effmass", "total effective mass line", rp["em_total"], tr["percent"].sum(axis=0), 0.6e-2, 1e-6, 100.0)
+            if rp["em_total"] is not None and np.any(rp["em_total"][:3] > 100.006):
+                _fail(out, fam("report-effmass"), "translational effective mass exceeds 100 percent", inp, rp["em_total"].tolist(), "<= 100")
+    # --- matrix value checks
+    v = rp["vals"]
+    if free or True:
+        want = {"mqq_diag": 0.0, "mqq_off": 0.0, "kbq_max": 0.0, "kqq_off": 0.0}
+        for key, w in want.items():
+            if key not in v or abs(v[key]) > (1e-9 * kmx if key.startswith("k") else 1e-11):
+                _fail(out, fam("report-values"), "value check %s of a Craig-Bampton model is not zero" % key, inp, v.get(key), 0.0)
+        if nq:
+            kq = float(np.min(np.diag(tr["Kcb"])[nb:]))
+            if "kqq_min" not in v or abs(v["kqq_min"] - kq) > 2e-5 * abs(kq):
+                _fail(out, fam("report-values"), "minimum diagonal of KQQ", inp, v.get("kqq_min"), kq)
+        if "kbb_max" not in v or abs(v["kbb_max"] - pt["kbb_max"]) > 2e-5 * pt["kbb_max"] + 1e-9 * kmx:
+            _fail(out, fam("report-values"), "maximum of KBB (after the massless DOF are condensed)", inp, v.get("kbb_max"), pt["kbb_max"])
+
+
 
 
 def probe_noreorder(seed):
